@@ -499,6 +499,14 @@ fn scripts() -> Vec<(&'static str, Vec<Step>)> {
         ("B,HKE,KE,HKE", vec![c(vec![&b]), Step::HonestKeyExchange, Step::KeyExchange, Step::HonestKeyExchange]),
         ("B,HKE,X,KE", vec![c(vec![&b]), Step::HonestKeyExchange, c(vec![&x]), Step::KeyExchange]),
         ("HKE,B,KE", vec![Step::HonestKeyExchange, c(vec![&b]), Step::KeyExchange]),
+        // the genuine certificate with the attacker's share under another curve label
+        ("B,KE[curve=24]", vec![c(vec![&b]), Step::KeyExchangeLabelled { curve_type: 3, named_curve: 24 }]),
+        ("B,KE[curve=29]", vec![c(vec![&b]), Step::KeyExchangeLabelled { curve_type: 3, named_curve: 29 }]),
+        ("B,KE[curve=0]", vec![c(vec![&b]), Step::KeyExchangeLabelled { curve_type: 3, named_curve: 0 }]),
+        ("B,KE[curve=65535]", vec![c(vec![&b]), Step::KeyExchangeLabelled { curve_type: 3, named_curve: 65535 }]),
+        ("B,KE[type=1]", vec![c(vec![&b]), Step::KeyExchangeLabelled { curve_type: 1, named_curve: 23 }]),
+        ("B,KE[type=2]", vec![c(vec![&b]), Step::KeyExchangeLabelled { curve_type: 2, named_curve: 23 }]),
+        ("B,HKE,KE[curve=24]", vec![c(vec![&b]), Step::HonestKeyExchange, Step::KeyExchangeLabelled { curve_type: 3, named_curve: 24 }]),
     ]
 }
 
